@@ -463,6 +463,23 @@ CORPUS["C18"] += [B("Polygon.path cached, points setter does not invalidate", "R
                   E("Polygon.path cached and invalidated by the points setter", *PATH_CACHED_OK)]
 CORPUS["C06"] += [B("Polygon.path cached, points setter does not invalidate", "R06.5", *PATH_CACHED), E("Polygon.path cached and invalidated by the points setter", *PATH_CACHED_OK)]
 
+
+MESHING = "device/meshing.py"
+HOLE_MARK = "            np.array(Polygon(hole).centroid.coords[0]) - r0.squeeze()\n"
+CORPUS["C07"] += [B("hole markers left in the user's frame", "R07.6", (MESHING, HOLE_MARK, "            np.array(Polygon(hole).centroid.coords[0])\n")),
+                  B("boundary points compared across frames", "R07.6", (MESHING, "ensure_unique(boundary - r0)", "ensure_unique(boundary)")),
+                  B("result not shifted back", "R07.6", (MESHING, "    points = np.array(mesh.points) + r0\n    triangles = np.array(mesh.elements)\n    if min_points is None", "    points = np.array(mesh.points)\n    triangles = np.array(mesh.elements)\n    if min_points is None")),
+                  E("hole markers shifted through a local", (MESHING, HOLE_MARK, "            np.array(Polygon(hole).centroid.coords[0]) - r0[0]\n"))]
+FINAL_OLD = "        if saved_times[-1] == times[-1]:\n"
+CORPUS["C05"] += [B("final-frame test with np.isclose", "R05.10", (SOLN, FINAL_OLD, "        if np.isclose(saved_times[-1], times[-1]):\n")),
+                  B("final-frame test with an absolute tolerance", "R05.10", (SOLN, FINAL_OLD, "        if abs(saved_times[-1] - times[-1]) < 1e-12:\n")),
+                  E("final-frame test by index arithmetic", (SOLN, FINAL_OLD, "        if (len(times) - 1) % step == 0:\n"))]
+ALLCLOSE_SKIP = (OPS, "        self.link_exponents = link_exponents\n", "        if self.psi_gradient is not None and self.link_exponents is not None and link_exponents is not None and np.allclose(link_exponents, self.link_exponents):\n            self.link_exponents = link_exponents\n            return\n        self.link_exponents = link_exponents\n")
+CORPUS["C10"] += [B("refresh skipped for a potential within tolerance of the previous one", "R10.1", ALLCLOSE_SKIP)]
+FLOOR = (SOLVER, "            denominator = xp.maximum(denominator, 1e-20, out=denominator)\n", "            floor = 1e-3 * float(xp.abs(self.operators.link_exponents).max())\n            denominator = xp.maximum(denominator, max(floor, 1e-20), out=denominator)\n")
+CORPUS["C04"] += [B("screening error floor taken from the total vector potential", "R04.7", FLOOR),
+                  B("psi scaled by the magnitude of the applied potential", "R04.7", (SOLVER, "        old_sq_psi = xp.absolute(psi) ** 2\n", "        old_sq_psi = xp.absolute(psi) ** 2 * (1 + 0 * xp.abs(current_A_applied).max())\n"))]
+
 # ---------------------------------------------------------------------------
 # generic behaviour-preserving transformations of the anchor functions
 # ---------------------------------------------------------------------------
